@@ -1,4 +1,5 @@
 import Netconan.Proofs.Secrets
+import Netconan.Proofs.Numeric
 /-!
 # C09 – Secret replacements are format-compliant and keep their context
 -/
@@ -56,7 +57,7 @@ theorem line_frame (groups) (input : List Char) (lk : Lookup) (out : List Char) 
     simp [hg] at h
     exact ⟨ld, body, tr, p.1, hc, by rw [← h.1, List.append_assoc]⟩
 
-/-! the re-encodings: digits stay digits, hex stays hex (closed forms) -/
+/-! the re-encodings are format compliant: digits stay digits, hex stays hex, type 7 stays decodable -/
 
 theorem hexOf_length (txt : List Char) : (hexOf txt).length = 2 * txt.length := by
   induction txt with
@@ -66,6 +67,24 @@ theorem hexOf_length (txt : List Char) : (hexOf txt).length = 2 * txt.length := 
 /-- the type-7 replacement starts with the two digits of the static salt 9 -/
 theorem type7_prefix (txt : List Char) : (type7 9 txt).take 2 = ['0', '9'] := by
   simp [type7]
+
+/-- **type 7 is well formed for every text**: `09` then two upper-case hex digits per character
+(what `cisco_type7` and the format pattern `^[0-9]{2}([0-9A-F]{2})+$`... accept) -/
+theorem type7_wellformed (txt : List Char) :
+    (type7 9 txt).length = 2 + 2 * txt.length ∧ ∀ c ∈ type7 9 txt, isUpperHex c = true := type7_format txt
+
+/-- **and decodes back to what was encoded** (passlib's decoder, modelled: XOR with the same key
+stream), for every ASCII text – a device reading the replacement sees the pseudonym -/
+theorem type7_decodes (txt : List Char) (h : ∀ c ∈ txt, c.toNat < 128) : type7Decode (type7 9 txt) = txt :=
+  type7_roundtrip txt h
+
+/-- **hex replacements are lower-case hex digits only** and `unhexlify` gives the pseudonym back -/
+theorem hex_wellformed (txt : List Char) (h : ∀ c ∈ txt, c.toNat < 256) :
+    (∀ c ∈ hexOf txt, isLowerHex c = true) ∧ unhex (hexOf txt) = txt := ⟨hexOf_format txt, unhex_hexOf txt h⟩
+
+/-- **numeric replacements are non-empty strings of decimal digits** for every text -/
+theorem numeric_wellformed (txt : List Char) : numericOf txt ≠ [] ∧ ∀ c ∈ numericOf txt, isDigit c = true :=
+  numericOf_format txt
 
 /-- kernel-evaluated (a test): the first pseudonyms in each re-encoding -/
 example : type7 9 (pseudonym 0) = "09424B1D1A0A1913053E012724322D3765".toList := by decide +kernel
